@@ -21,6 +21,7 @@ func C13(c *Ctx) {
 	ext := c.ExternalCalls()
 	accepted := map[string]string{
 		"(*parser.Parser).findConvergenEntries:github.com/matoous/go-nanoid.Nanoid": "per-interface placeholder marker; replaced by the generated functions (C17-4)",
+		"parser.NewParser:path/filepath.Abs":                                        "the absolute path of the setup file fixes the directory the go command runs in and the file it is asked about: the loader's answer no longer depends on the working directory (the absolute form denotes the same file whatever the cwd)",
 		"parser.outputOverlay:path/filepath.Abs":                                    "the absolute forms of the setup and output paths only address the loader overlay entry and are compared by directory (C12-2 checks that the value flows nowhere else); the overlay content is the package name, no path reaches the output",
 	}
 	n := 0
@@ -122,6 +123,7 @@ func C13(c *Ctx) {
 	c.positive("C13-2", "first-key-wins", ctl, []string{"runner.FirstKey"}, nil)
 	c.positive("C13-2", "unsorted-collection", ctl, []string{"runner.Keys"}, []string{"runner.SortedKeys"})
 	c.positionedWarnings("C13-4")
+	c.loaderConfigRule("C13-5")
 	c.positive("C13-1", "goroutine", func(pc *Ctx) {
 		for _, in := range pc.concurrencyOps() {
 			pc.R.Check("C13-1", FnKey(in.Parent())+":concurrency", pc.InstrPos(in), false, "goroutine / channel operation")
